@@ -63,9 +63,9 @@ def parseEntries (s : String) : Option (List PollEntry) :=
     | [fd, ev, rev] => do pure { fd := ← fd.toNat?, ev := ← parseBits ev, rev := ← parseBits rev }
     | _ => none
 
-def showOut : PollOutcome → String | .ok => "ok" | .eintr => "eintr" | .stuck => "stuck"
+def showOut : PollOutcome → String | .ok => "ok" | .eintr => "eintr" | .stuck => "stuck" | .intr => "intr"
 def parseOut : String → Option PollOutcome
-  | "ok" => some .ok | "eintr" => some .eintr | "stuck" => some .stuck | _ => none
+  | "ok" => some .ok | "eintr" => some .eintr | "stuck" => some .stuck | "intr" => some .intr | _ => none
 
 def showEv : Ev → String
   | .op o r => s!"{showOp o}:{showRes r}"
@@ -108,6 +108,7 @@ def parseTop : List String → Option Top
   | ["interrupt"] => some (.api .interrupt)
   | ["poll", adv, a] => do pure (.pollAns (.ans (← adv.toNat?) (← parseAns a)))
   | ["pollintr", adv] => do pure (.pollAns (.eintr (← adv.toNat?)))
+  | ["pollsig", adv] => do pure (.pollAns (.intr (← adv.toNat?)))
   | ["run"] => some .run
   | _ => none
 
